@@ -1200,12 +1200,28 @@ func (c *Ctx) c19StreamGetNext() {
 // running dry (stores true into runningOut) also sets that instant — otherwise the period is counted from the consumer's
 // last look at the stream, and a consumer that was idle for longer sees the stream end the moment it is marked.
 func (c *Ctx) c19GraceFromDryUp() {
+	c.rule("E15", "the instant the grace period is counted from is recorded only by the call that finds the stream not yet marked as running dry (the previous value of the flag is tested): being told twice does not start the period again", 1)
 	c.rule("E13", "the function that marks the stream as running dry also records the instant the grace period is counted from", 1)
 	n := 0
 	for _, f := range c.srcFuncs("collection/pagination") {
 		marks := false
 		var site ssa.Instruction
 		stamps := false
+		var stampSites []*ssa.Call
+		fieldOf := func(v ssa.Value) string {
+			u, ok := v.(*ssa.UnOp)
+			if !ok {
+				return ""
+			}
+			fa, ok := u.X.(*ssa.FieldAddr)
+			if !ok {
+				return ""
+			}
+			if so := structOf(fa.X.Type()); so != nil {
+				return so.Field(fa.Field).Name()
+			}
+			return ""
+		}
 		allInstrs(f, func(in ssa.Instruction) {
 			cl, ok := in.(*ssa.Call)
 			if !ok || len(cl.Call.Args) == 0 {
@@ -1238,6 +1254,7 @@ func (c *Ctx) c19GraceFromDryUp() {
 			case strings.HasSuffix(n, "atomic.Time).Store"):
 				if fieldOf(cl.Call.Args[0]) == "timeReachLast" {
 					stamps = true
+					stampSites = append(stampSites, cl)
 				}
 			}
 		})
@@ -1248,6 +1265,30 @@ func (c *Ctx) c19GraceFromDryUp() {
 		c.FuncsSeen[fname(f)] = true
 		c.check(stamps, "E13", fname(f)+"/grace-period-starts-here", c.ipos(site), "the instant the grace period is counted from is recorded where the stream is marked",
 			fname(f)+" marks the stream as running dry without recording when: the grace period is then counted from the last time HasNext() looked at the stream, and for a consumer that had been idle for longer than the period HasNext() answers false at once — the future page, and the items already on it, are never looked at")
+		// E15: told once is told: a repeated DryUp() does not start the grace period again
+		if stamps {
+			firstOnly := true
+			for _, st := range stampSites {
+				was := func(want bool) func(ssa.Value) bool {
+					return func(v ssa.Value) bool {
+						t, ok := v.(*ssa.Call)
+						if !ok || len(t.Call.Args) == 0 || fieldOf(t.Call.Args[0]) != "runningOut" {
+							return false
+						}
+						tn := calleeFull(&t.Call)
+						if want { // CompareAndSwap(false, true) answered true: the flag was not set before
+							return strings.HasSuffix(tn, "atomic.Bool).CompareAndSwap") || strings.HasSuffix(tn, "atomic.Bool).CAS")
+						}
+						return strings.HasSuffix(tn, "atomic.Bool).Swap") || strings.HasSuffix(tn, "atomic.Bool).Load")
+					}
+				}
+				if !onBoolSide(st, false, was(false)) && !onBoolSide(st, true, was(true)) {
+					firstOnly = false
+				}
+			}
+			c.check(firstOnly, "E15", fname(f)+"/grace-period-starts-once", c.ipos(site), "the instant is recorded only where the stream was not yet marked as running dry",
+				fname(f)+" records a new instant every time it is called: a stream that is told again that it is drying up (a poller that repeats DryUp() more often than the grace period lasts) starts its grace period again each time — HasNext() goes on waiting for future pages after the period has elapsed, for ever if the calls keep coming")
+		}
 	}
 	if n == 0 {
 		c.violate("E13", "collection/pagination/running-dry-never-marked", "", "nothing marks the stream as running dry any more")
